@@ -171,7 +171,11 @@ impl StructureChecker {
                         limit_usize,
                         limits.override_reason.clone(),
                     ));
-                } else if stats.file_count > warn_limit {
+                } else if Self::reaches_warn_point(
+                    stats.file_count,
+                    warn_limit,
+                    limits.warn_files_at,
+                ) {
                     violations.push(StructureViolation::warning(
                         path.clone(),
                         ViolationType::FileCount,
@@ -204,7 +208,8 @@ impl StructureChecker {
                         limit_usize,
                         limits.override_reason.clone(),
                     ));
-                } else if stats.dir_count > warn_limit {
+                } else if Self::reaches_warn_point(stats.dir_count, warn_limit, limits.warn_dirs_at)
+                {
                     violations.push(StructureViolation::warning(
                         path.clone(),
                         ViolationType::DirCount,
@@ -254,6 +259,17 @@ impl StructureChecker {
         // Sort by path for consistent output
         violations.sort_by(|a, b| a.path.cmp(&b.path));
         violations
+    }
+
+    /// Whether a count that is within the hard limit has reached the warn point.
+    /// An absolute `warn_*_at` count is inclusive ("at or above", as documented);
+    /// percentage thresholds warn above the rounded-up share of the limit.
+    const fn reaches_warn_point(count: usize, warn_limit: usize, absolute: Option<i64>) -> bool {
+        if absolute.is_some() {
+            count >= warn_limit
+        } else {
+            count > warn_limit
+        }
     }
 
     /// Calculate the warn limit using the fallback chain:
